@@ -73,6 +73,20 @@ Theorem C04_split16_shortest : forall b x, bytes_ok b -> lv_denote split16_table
 Proof. exact split16_shortest. Qed.
 Print Assumptions C04_split16_shortest.
 
+(* the decoders compute the documented meaning of EVERY well-formed stream
+   (canonical or not), at any address, and report its length *)
+Theorem C04_split_get_denote : forall pre b tl x, bytes_ok b ->
+  lv_denote split_table b = Some x ->
+  split_get_at (pre ++ b ++ tl) (Z.of_nat (length pre)) = Some (N.of_nat (length b), x).
+Proof. exact split_get_denote. Qed.
+Print Assumptions C04_split_get_denote.
+
+Theorem C04_split16_get_denote : forall pre b tl x, bytes_ok b ->
+  lv_denote split16_table b = Some x ->
+  split16_get_at (pre ++ b ++ tl) (Z.of_nat (length pre)) = Some (N.of_nat (length b), x).
+Proof. exact split16_get_denote. Qed.
+Print Assumptions C04_split16_get_denote.
+
 (* ---- length-monotone ---- *)
 Theorem C04_split_len_mono : forall x y, x <= y -> y < 18446744073709551616 ->
   split_length x <= split_length y.
